@@ -321,6 +321,11 @@ ADel(i) == /\ IsArr \/ Struct
            /\ LET m == Del(Cur, i) IN Done(Fin(m, "ok"), [op |-> "del", i |-> i])
 ALen(n) == /\ IsArr
            /\ LET m == SetLen(Cur, n) IN Done(Fin(m, "ok"), [op |-> "len", n |-> n])
+\* the same change of length through [[DefineOwnProperty]] (Object.defineProperty(a, "length", {value: n})); asking for a read-only
+\* length is refused and changes nothing
+ALenDef(n, ro) == /\ IsArr
+                  /\ IF ro = "T" THEN Commit(Cur, [op |-> "lendef", n |-> n, ro |-> ro, res |-> "TypeError"])
+                     ELSE LET m == SetLen(Cur, n) IN Done(Fin(m, "ok"), [op |-> "lendef", n |-> n, ro |-> ro])
 AMeth ==
   /\ IsArr
   /\ \/ On("push") /\ \E v \in GoodVals : Done(APush(Cur, JV(v)), [op |-> "push", v |-> v])
@@ -510,6 +515,7 @@ Next ==
   \/ On("setF") /\ \E i \in 0..(Len(w) - 1) : ASetF(i, 7)
   \/ On("del") /\ \E i \in 0..Len(w) : ADel(i)
   \/ On("len") /\ \E n \in {0, Len(w) - 1, Len(w), Len(w) + 1, Len(w) + 2} : n >= 0 /\ ALen(n)
+  \/ On("lendef") /\ \E n \in {0, Len(w) - 1, Len(w), Len(w) + 1}, ro \in {"T", "F"} : n >= 0 /\ ALenDef(n, ro)
   \/ AMeth
   \/ \E j \in 1..NH : (On("hold") /\ \E i \in 0..(Len(w) - 1) : AHold(j, i)) \/ (On("drop") /\ ADrop(j)) \/ (On("hsetF") /\ AHSetF(j, 8))
   \/ On("goSetF") /\ \E i \in 0..(Len(g) - 1) : GoSetF(i, 9)
@@ -548,7 +554,7 @@ LiveView == /\ ~ByVal => g = w
 Unshared == sh = "F" => ByVal
 \* what a kept reference shows changes only by a write through a reference / into the aliased cell, never because the
 \* container was restructured ("element wrappers handed out earlier keep referring to the value they were taken from")
-Structural == {"set", "del", "len", "push", "pop", "shift", "unshift", "reverse", "fill", "copyWithin", "splice", "sort",
+Structural == {"set", "del", "len", "lendef", "push", "pop", "shift", "unshift", "reverse", "fill", "copyWithin", "splice", "sort",
                "mset", "mdel", "goPut", "goDel", "get", "mget", "hold", "mhold", "drop"}
 ShownNow(j) == Deref(Cur, j)
 ShownNext(j) == Deref([w |-> w', g |-> g', sh |-> sh', r |-> r', c |-> c', o |-> o'], j)
